@@ -27,6 +27,9 @@ have rank `n − k` is measured (every size with `Lx ≤ 7`, `Ly, Lz ≤ 9`, `n 
 import PanqecVerif.Proofs.LatHollowRhombicCodeThinA
 import PanqecVerif.Proofs.LatHollowRhombicCodeThinB
 import PanqecVerif.Proofs.LatHollowRhombicCodeThinC
+import PanqecVerif.Proofs.LatHollowRhombicCodeRankF
+import PanqecVerif.Proofs.LatHollowRhombicCodeRankN
+import PanqecVerif.Proofs.Lat2DRankSubset
 
 namespace Panqec.C01HollowRhombicCode
 open Panqec.HollowRhombicCode Panqec.Color
@@ -261,6 +264,75 @@ theorem deficient_not_valid (Lx Ly Lz : Nat) (h : Deficient Lx Ly Lz) :
   · exact (thin_hole_family_y Lx Lz hx hz).2
   · exact (thin_hole_family_z Lx Ly hx hy).2
 
+/-! ### the positive side of the rank clause -/
+
+/-- THE INDEPENDENT FAMILY (operator level, EVERY size with `Ly ≥ 1`, deficient sizes included): the
+    members of `rankFamily` — all cubes; all triangles of axis 3 and 2; of axis 1 those at a vertex
+    where the triangle of axis 3 or 2 is not listed (the row `y = 2Ly−2` and the vertices next to the
+    hole); of axis 0 those of the last column `x = 2Lx−2`, the upper one (`(x+y+z) % 4 = 2`, `z ≥ 2`) of
+    the two that share a z edge, the lower one where the upper one is not listed, and the lower ones
+    `(0, 2, 2, z)`, `z % 4 = 0`, `8 ≤ z ≤ 2Lz−6`, along the hole edge `x = y = 3` when `Lx, Ly ≥ 4` — are
+    independent: every non-empty duplicate-free sub-family has a Pauli operator on the qubits
+    anticommuting with an odd number of its members (a triangular family of probes: single qubits,
+    and `X(3,2,z) X(4,2,z−1) X(3,2,z−2)` for the triangles along the hole edge) -/
+theorem generators_independent (Lx Ly Lz : Nat) (hy : 1 ≤ Ly) :
+    Lat2D.IndepGenerators (lattice Lx Ly Lz) (rankFamily Lx Ly Lz) :=
+  indep_rankFamily Lx Ly Lz hy
+
+/-- the family consists of distinct stabilizer locations (every size) -/
+theorem generators_listed (Lx Ly Lz : Nat) :
+    (rankFamily Lx Ly Lz).Nodup ∧ ∀ s ∈ rankFamily Lx Ly Lz, s ∈ (lattice Lx Ly Lz).stabs :=
+  ⟨nodup_rankFamily Lx Ly Lz, fun _ hs => rankFamily_sub hs⟩
+
+/-- the sizes for which the family is COUNTED: no hole (`Lx ≤ 2`, `Ly ≤ 3` or `Lz ≤ 3`: `_is_in_hole` is
+    never true), or a hole at least two layers of edges thick in every direction -/
+def Covered (Lx Ly Lz : Nat) : Prop := (Lx ≤ 2 ∨ Ly ≤ 3 ∨ Lz ≤ 3) ∨ (4 ≤ Lx ∧ 5 ≤ Ly ∧ 5 ≤ Lz)
+
+instance (Lx Ly Lz : Nat) : Decidable (Covered Lx Ly Lz) := by unfold Covered; infer_instance
+
+/-- a counted size is not deficient -/
+theorem covered_not_deficient {Lx Ly Lz : Nat} (h : Covered Lx Ly Lz) : ¬ Deficient Lx Ly Lz := by
+  unfold Covered at h; unfold Deficient; omega
+
+/-- the family has exactly `n − k = n − 1` members (sizes of the family that are counted) -/
+theorem generators_count_partial (Lx Ly Lz : Nat) (h : Family Lx Ly Lz) (hc : Covered Lx Ly Lz) :
+    (rankFamily Lx Ly Lz).length + (lattice Lx Ly Lz).toCodeData.k = (lattice Lx Ly Lz).toCodeData.n := by
+  obtain ⟨hx, hy, hz⟩ := h
+  rcases hc with hc | ⟨h1, h2, h3⟩
+  · exact noHole_count hc hx hy (by omega)
+  · exact thick_count h1 h2 h3
+
+/-- the number of cubes (every size): the cubes of the checkerboard in the box `Lx × (Ly+1) × (Lz−1)`
+    (rounded up) minus those with all eight corners in the hole (the box
+    `(Lx−4) × (Ly−5) × (Lz−5)`, rounded down) -/
+theorem n_cubes (Lx Ly Lz : Nat) :
+    (cubes Lx Ly Lz).length + (Lx - 4) * ((Ly - 5) * (Lz - 5)) / 2 =
+      (Lx * ((Ly + 1) * (Lz - 1)) + 1) / 2 := by
+  have := cubes_count Lx Ly Lz
+  unfold Rhombic.half at this
+  simpa using this
+
+/-- THE C01 STATEMENT, POSITIVE SIDE (partial): for every size of the supported family without hole
+    and for every size whose hole is at least two layers thick in every direction (`Lx ≥ 4`,
+    `Ly, Lz ≥ 5`) the matrices that `stabilizer_matrix`, `logicals_x`, `logicals_z` of the generic code
+    model assemble from this lattice model form a valid `[[n, 1]]` stabilizer code — commutation,
+    pairing and GF(2) rank `n − 1`.  MISSING for `valid_code` on every non-deficient size: the count of
+    the family for the sizes with a hole that is one layer thin in some direction and not deficient
+    (`Lx = 3`, `Ly = 4` or `Lz = 4` with a hole; the family is independent there too —
+    `generators_independent` — and has `n − 1` members on every such size that was evaluated, except
+    `Lz = 4 ∧ Lx ≥ 4 ∧ Ly ≥ 5` and `Lx = 3 ∧ Ly = 5 ∧ Lz ≥ 7`, where further triangles along other hole edges
+    would have to be kept) -/
+theorem valid_code_partial (Lx Ly Lz : Nat) (h : Family Lx Ly Lz) (hc : Covered Lx Ly Lz) :
+    stabilizerMatrix (lattice Lx Ly Lz).toCodeData = some (lattice Lx Ly Lz).rowsH ∧
+    logicalsX (lattice Lx Ly Lz).toCodeData = some (lattice Lx Ly Lz).rowsX ∧
+    logicalsZ (lattice Lx Ly Lz).toCodeData = some (lattice Lx Ly Lz).rowsZ ∧
+    ValidCodeL (lattice Lx Ly Lz).toCodeData.n 1
+      (lattice Lx Ly Lz).rowsH (lattice Lx Ly Lz).rowsX (lattice Lx Ly Lz).rowsZ :=
+  Lat2D.validCode_of_lattice_subset (lattice Lx Ly Lz) (wf Lx Ly Lz h) (commPair Lx Ly Lz h)
+    (rankFamily Lx Ly Lz) (nodup_rankFamily Lx Ly Lz) (fun _ hs => rankFamily_sub hs)
+    (generators_independent Lx Ly Lz (by unfold Family at h; omega))
+    (generators_count_partial Lx Ly Lz h hc)
+
 /-! ### non-vacuity -/
 
 example : Family 2 2 3 := by decide
@@ -285,5 +357,16 @@ example : (lattice 2 2 3).getStab [0, 2, 0, 0] = [([3, 0, 0], .Z), ([2, 1, 0], .
 set_option maxRecDepth 100000 in
 example : (lattice 2 2 3).getStab [1, -1, 1] = [([2, 0, 1], .X), ([1, 0, 2], .X), ([1, 0, 0], .X)] := by
   decide
+
+example : Covered 2 2 3 ∧ Covered 7 3 9 ∧ Covered 4 5 5 ∧ Covered 6 9 8 ∧ ¬ Covered 3 5 5 ∧ ¬ Covered 4 4 5 := by
+  decide
+/-- a size with a thick hole: 520 qubits, rank 519 -/
+example : HasRank (2 * (lattice 6 5 8).toCodeData.n) (lattice 6 5 8).rowsH
+    ((lattice 6 5 8).toCodeData.n - 1) ∧ (lattice 6 5 8).toCodeData.n = 520 :=
+  ⟨(valid_code_partial 6 5 8 (by decide) (by decide)).2.2.2.rank,
+    by have := n_formula 6 5 8; omega⟩
+example : Lat2D.IndepGenerators (lattice 3 6 6) (rankFamily 3 6 6) :=
+  generators_independent 3 6 6 (by decide)
+example : (cubes 5 6 7).length = 104 := by have := n_cubes 5 6 7; omega
 
 end Panqec.C01HollowRhombicCode
